@@ -4,7 +4,7 @@ Lemmas for C15: the offset walk of `rateConstGo`, the label list, the label → 
 Core Lean only.  No algebra: every statement holds for an arbitrary carrier type.
 -/
 import Micm.Spec.RateFlat
-import Micm.Properties.C19
+import Micm.Lemmas.DenseAddr
 namespace Micm
 
 /-! ### offsets -/
